@@ -333,7 +333,7 @@ pub fn run(ctx: &Ctx) -> Outcome {
         }
     }
     if want("random") {
-        let (lo, hi) = range(ctx.tier.pick(5000, 300_000));
+        let (lo, hi) = range(ctx.tier.pick(20_000, 300_000));
         run_cases(&mut acc, "random", hi - lo, |i| {
             let i = i + lo;
             let mut rng = Rng::derive(seed, "c02-random", i);
@@ -360,7 +360,7 @@ pub fn run(ctx: &Ctx) -> Outcome {
         });
     }
     if want("random-big") {
-        let (lo, hi) = range(ctx.tier.pick(60, 3000));
+        let (lo, hi) = range(ctx.tier.pick(200, 3000));
         run_cases(&mut acc, "random-big", hi - lo, |i| {
             let i = i + lo;
             let mut rng = Rng::derive(seed, "c02-big", i);
@@ -385,7 +385,7 @@ pub fn run(ctx: &Ctx) -> Outcome {
         // matters across the batch boundary (a task created in the first batch and updated in a
         // later one; one property set twice with the later operation carrying the earlier
         // timestamp); the other replica's small version lands somewhere in between
-        let (lo, hi) = range(ctx.tier.pick(40, 2000));
+        let (lo, hi) = range(ctx.tier.pick(120, 2000));
         run_cases(&mut acc, "multi-batch-order", hi - lo, |i| {
             let i = i + lo;
             let mut rng = Rng::derive(seed, "c02-mbo", i);
